@@ -25,6 +25,8 @@ var keys = []keyDef{
 	{"a", "span", false}, {"http.method", "span", false}, {"err-kind", "span", false},
 	{"n", "span", true}, {"http.status_code", "span", true},
 	{"b", "resource", false}, {"k8s.pod_name", "resource", false}, {"cpu", "resource", true},
+	// attributes whose own names begin with a scope word (OpenTracing's span.kind) beside their unprefixed namesakes
+	{"span.kind", "span", false}, {"kind", "span", false}, {"resource.type", "resource", false}, {"type", "span", false}, {"span.weight", "span", true}, {"weight", "span", true},
 }
 
 var (
